@@ -818,11 +818,15 @@ theorem asChar_l {n : Nat} : LSpec o input (KLex input) (asChar n) s s QT := by
   unfold asChar
   lwp []
 
+theorem asEscapedChar_l {n : Nat} : LSpec o input (KLex input) (asEscapedChar n) s s QT := by
+  unfold asEscapedChar
+  lwp [asChar_l]
+
 theorem decodeElispCharEscape_l {fuel : Nat} :
     LSpec o input (KLex input) (decodeElispCharEscape fuel) s s QT := by
   unfold decodeElispCharEscape
   lwp [nextOrEofChar_l, nextOrEof_l, decodeElispHexEscape_l, decodeElispUniEscape_l,
-    decodeElispOctalEscape_l, asChar_l, decodeUtf8Sequence_l]
+    decodeElispOctalEscape_l, asChar_l, asEscapedChar_l, decodeUtf8Sequence_l]
 
 theorem parseElispChar_l {fuel : Nat} : LSpec o input (KLex input) (parseElispChar fuel) s s QT := by
   unfold parseElispChar
